@@ -608,12 +608,16 @@ class SymBytes:
     def decode(self, encoding='utf-8', errors='strict'):
         if not self.ov:
             return bytes(self.base).decode(encoding, errors)
-        if encoding.lower().replace('-', '').replace('_', '') != 'utf8':
+        enc = encoding.lower().replace('-', '').replace('_', '')
+        if enc not in ('utf8', 'utf8sig'):
             raise Unsupported('decode ' + encoding)
         if CUR.abstract_decode:
-            return AbsStr([('U', errors, self.items())])
+            return AbsStr([('U', enc + '/' + errors, self.items())])
         from . import utf8
-        return utf8.decode(self.items(), errors)
+        items = self.items()
+        if enc == 'utf8sig' and len(items) >= 3 and bool(items[0] == 0xEF) and bool(items[1] == 0xBB) and bool(items[2] == 0xBF):
+            items = items[3:]          # the BOM is swallowed
+        return utf8.decode(items, errors)
 
     def hex(self):
         if not self.ov:
@@ -1923,7 +1927,8 @@ def to_concrete(v, model):
             if s[0] == 'S':
                 out += s[1]
             else:
-                out += bytes(to_concrete(x, model) for x in s[2]).decode('utf-8', s[1])
+                enc_, _, err_ = s[1].partition('/')
+                out += bytes(to_concrete(x, model) for x in s[2]).decode({'utf8': 'utf-8', 'utf8sig': 'utf-8-sig'}.get(enc_, 'utf-8'), err_ or s[1])
         return out
     if isinstance(v, (list, tuple)):
         return [to_concrete(x, model) for x in v]
